@@ -77,6 +77,27 @@ func (ex *Exec) callBuiltin(fr *frame, b *ssa.Builtin, args []Value) Value {
 			}
 			return nil
 		}
+		// clear(slice): every element becomes the zero value of the element type
+		if sig, ok := b.Type().(*types.Signature); ok && sig.Params().Len() == 1 {
+			if st, ok := sig.Params().At(0).Type().Underlying().(*types.Slice); ok {
+				switch v := args[0].(type) {
+				case SliceV:
+					for i := range v.A {
+						v.A[i] = ex.zero(st.Elem())
+					}
+					return nil
+				case View:
+					if n, ok := v.Len.ConstS(); ok && n <= 1<<16 {
+						if o, ok2 := v.Off.ConstS(); ok2 {
+							for i := int64(0); i < n; i++ {
+								ex.objStore(v.O, ex.intConst(o+i), c.Const(8, 0))
+							}
+							return nil
+						}
+					}
+				}
+			}
+		}
 		panic(unsupported{"clear on slice"})
 	case "close":
 		ex.chanClose(fr, args[0])
